@@ -174,6 +174,50 @@ Example C08_nonvacuous :
   /\ votes demo_final 1 = [(0, 1)].
 Proof. exact demo_applied_once. Qed.
 
+(* ---- chk_sound: the spec checker (Model/C08Check.v) applied to REAL observations decides with
+   functions that agree with the model's oracles, and the clauses it evaluates at a finalisation,
+   an application and an accepted vote hold in EVERY run of the instantiated model ([cP] = the
+   parameters read from the tree).  Not covered: the checker's bookkeeping across a whole trace
+   (ck_run) and the veto clause for dynamic-voter contents, where the model follows the code and the
+   checker the property text (known finding passed_despite_veto:dynamic_voter_proposal). *)
+Theorem C08_chk_sound_oracles : forall w who ct,
+  fst (spec_window w ct) = w_end_secs w ct /\ snd (spec_window w ct) = w_enact_secs w ct
+  /\ spec_quorum w ct = w_quorum w ct
+  /\ may_vote w who ct = w_is_active w who && w_can w who (vote_perm ct) ct
+  /\ ((vote_perm ct =? 0) = false -> eligible w ct = w_nvoters w ct /\ veto_capable w ct = w_nveto w ct).
+Proof.
+  exact (fun w who ct => conj (proj1 (chk_window_matches w ct)) (conj (proj2 (chk_window_matches w ct))
+           (conj (chk_quorum_matches w ct) (conj (chk_may_vote_matches w who ct) (chk_electorate_matches w ct))))).
+Qed.
+Print Assumptions C08_chk_sound_oracles.
+
+Theorem C08_chk_sound_finalisation : forall w0 ops id tl nv q mine cf af l1 l2 p,
+  log (run cP ops (init w0)) = l1 ++ EvFinal id Enactment tl nv q mine cf af :: l2 ->
+  submit_of id l2 = Some p -> (vote_perm (p_content p) =? 0) = false ->
+  (p_vend p <=? now cf) && (p_minv p <=? height cf) = true
+  /\ pass_clauses af (mkR id (p_content p) (p_vend p) (p_eend p) (p_minv p) 4 None 0 (sort_votes (votes_of id l2))) = [].
+Proof. exact chk_sound_finalisation. Qed.
+Print Assumptions C08_chk_sound_finalisation.
+
+Theorem C08_chk_sound_application : forall w0 ops id ok c a1 a2 l1 l2,
+  log (run cP ops (init w0)) = l1 ++ EvApply id ok c a1 a2 :: l2 ->
+  exists p res tl nv q cf af,
+    submit_of id l2 = Some p
+    /\ final_of id l2 = Some (res, tl, nv, q, height cf + n_enactblocks (w_np af), cf, af)
+    /\ (p_eend p <=? now c) = true
+    /\ (height cf + n_enactblocks (w_np af) <=? height c) = true
+    /\ n_applied id l2 = O
+    /\ (ok = true -> a2 = spec_effect (p_content p) a1)
+    /\ (ok = false -> a2 = a1).
+Proof. exact chk_sound_application. Qed.
+Print Assumptions C08_chk_sound_application.
+
+Theorem C08_chk_sound_vote : forall w0 ops id who opt c a1 l1 l2,
+  log (run cP ops (init w0)) = l1 ++ EvVote id who opt c a1 :: l2 ->
+  exists p, submit_of id l2 = Some p /\ (now c <=? p_vend p) = true /\ may_vote a1 who (p_content p) = true.
+Proof. exact chk_sound_vote. Qed.
+Print Assumptions C08_chk_sound_vote.
+
 (* ---- the float32 tally of the code (Flocq binary32).  These four theorems alone depend on the four
    standard-library axioms of the Reals. *)
 (* "the float32 decision equals the exact rule" fails from 2^24 voters on: 16777216 yes of 33554431
